@@ -88,7 +88,7 @@ ParseSub(st, sub) ==
       g3 == SubSeq(sub, n1 + (IF g2 # 0 THEN 1 ELSE 0) + 1, Len(sub))
       fin == d3 /\ g2 = SP
   IN [code  |-> IF fin /\ st.code = 0 THEN Code3(sub) ELSE st.code,
-      crash |-> st.crash \/ (fin /\ st.code # 0),          \* assert self.code is None
+      crash |-> st.crash \/ (fin /\ st.code # 0),          \* 'Reply has more than one final line' (was: assert)
       has   |-> TRUE,
       text  |-> IF st.has THEN st.text \o CRLF \o g3 ELSE g3]
 
@@ -245,7 +245,8 @@ ReadLine ==
          cons == consumed \o line
      IN /\ inbuf' = SubSeq(inbuf, Len(line) + 1, Len(inbuf))
         /\ IF st.crash
-           THEN /\ cpc' = "crash" /\ outcome' = "crash" /\ copen' = FALSE /\ logged' = <<>>
+           \* a second final line inside one reply: ProtocolError since the repair of the assertion (C09)
+           THEN /\ cpc' = "error" /\ outcome' = "error" /\ copen' = FALSE /\ logged' = <<>>
                 /\ cur' = P0 /\ consumed' = <<>>
                 /\ UNCHANGED <<bcmd, daddr, pend, cmdBytes, auto, replyOK, transferComplete, finalReplySeen, finalCode, bodyOK, codes>>
            ELSE IF st.code = 0
